@@ -71,7 +71,8 @@ def analyse(lines):
         return {"failed": repr(res.error)}
     incompatible = bool(res.issues.get("incompatible_types"))
     var = res.top_level_variables.get("c")
-    return {"incompatible": incompatible, "type": pedal_token(var.type) if var is not None else "missing"}
+    return {"incompatible": incompatible, "type": pedal_token(var.type) if var is not None else "missing",
+            "type_object": var.type if var is not None else None}
 
 
 def cells_chunk(cases, extra):
@@ -100,6 +101,11 @@ def cells_chunk(cases, extra):
             pass      # the property is one-directional: extra reports are not a violation
         elif st == "ok" and not conforms(value_token(val), an["type"]):
             out.append({"e": e, "expr": expr, "kind": "wrong-type", "value": value_token(val), "tifa_type": an["type"]})
+        elif st == "ok" and an["type_object"] is not None:
+            # position by position for the results whose pedal type keeps one type per position (tuples)
+            deep = deep_mismatch(val, an["type_object"])
+            if deep:
+                out.append({"e": e, "expr": expr, "kind": "wrong-element-type", "value": repr(val)[:60], "tifa_type": an["type"], "detail": deep})
     return out
 
 
@@ -128,6 +134,8 @@ def deep_mismatch(value, t):
     from pedal.types.new_types import TupleType, DictType, LiteralValue
     if isinstance(value, tuple) and isinstance(t, TupleType):
         ets = list(t.element_types)
+        if not ets and value:
+            return None                 # pedal's tuple of unknown shape ("completely generic tuples")
         if len(ets) != len(value):
             return "tuple of %d values typed with %d element types" % (len(value), len(ets))
         for v, et in zip(value, ets):
